@@ -6,7 +6,7 @@ CONSTANTS
   Inf = 99
   MaxFail = 2
   MaxHist = FALSE
-  StopRule = "none"
+  StopRule = "time"
   Amount = 0
   CheckFirst = FALSE
   JIT = FALSE
